@@ -279,6 +279,19 @@ def unpack(chk):
         except NotInDomain as e:
             if s.targets[0].id in used_by_particles:
                 chk.refuted('C15-R3', P9, '_unpack_pack9', f'header state {s.targets[0].id}', f'not a polynomial form: {e}', node=s)
+    # precision of the header state: the cell size 1/cpd, rounded to the working dtype, is multiplied by a cell index of up to 4047; in
+    # float32 the product is off by up to box*1.2e-7 while the position quantum is 0.0005*box/cpd = box*1.25e-7 at cpd ~ 4000
+    hcasts = []
+    for s in list(walk_assigns(H.body)) + [x for x in fn.body if isinstance(x, ast.Assign) and isinstance(x.targets[0], ast.Name) and x.targets[0].id in ('boxsize', 'halfbox')]:
+        if s.targets[0].id in used_by_particles or s.targets[0].id in ('invcpd', 'csize', 'boxsize', 'halfbox'):
+            for c in ast.walk(s.value):
+                if isinstance(c, ast.Call) and dotted(c.func) in ('dtype', 'np.float32') and not (isinstance(c.args[0] if c.args else None, ast.Attribute) and unparse(c.args[0]) == 'np.nan'):
+                    hcasts.append((s, c))
+    pos_state = sorted({s_.targets[0].id for s_, _ in hcasts})
+    chk.check(not hcasts, 'C15-R3', P9, '_unpack_pack9', 'header state is kept in double precision (cell centre rounded once)', '',
+              f'{len(hcasts)} conversions to the working dtype inside the header state ({pos_state}), e.g. {unparse(hcasts[0][0])[:60] if hcasts else ""}: with float32 output the rounding of '
+              '1/cpd is multiplied by the cell index; for cpd >= 3815 (box 2000) decoded positions are more than one quantum from the encoded value '
+              '(box=2000, cpd=3981, cell 3974, offset code -333: 1.12 quanta), beyond "the float type beyond rounding"', node=hcasts[0][0] if hcasts else H, nontrivial=False)
     mode['ctx'] = 'S'
     got = {}
     for n in pstores:
